@@ -9,6 +9,7 @@ pub mod gen;
 pub mod conv;
 pub mod c01;
 pub mod c02;
+pub mod c04;
 pub mod c06;
 pub mod c07;
 pub mod c08;
@@ -71,7 +72,7 @@ pub trait Campaign: Sync {
 }
 
 pub fn all() -> Vec<&'static dyn Campaign> {
-    vec![&c01::C01, &c06::C06, &c07::C07, &c07::C17, &c08::C08, &c08::C20, &c10::C10, &c10::C16, &c10::C12, &c09::C09, &c09::C11, &c09::C18, &c02::C02, &c02::C03, &c13::C13, &c13::C15, &c14::C14]
+    vec![&c01::C01, &c06::C06, &c07::C07, &c07::C17, &c08::C08, &c08::C20, &c10::C10, &c10::C16, &c10::C12, &c09::C09, &c09::C11, &c09::C18, &c02::C02, &c02::C03, &c13::C13, &c13::C15, &c14::C14, &c04::C04, &c04::C19]
 }
 
 pub fn by_id(id: &str) -> Option<&'static dyn Campaign> {
